@@ -270,7 +270,10 @@ def check_call(fq, args, kwargs=None, contract=None, fn=None):
                 if not (type_ok(result, rt) if rt != "None" else result is None):
                     failures.append((tag + "/result-type", "returned %s, declared %s" % (short(result), rt)))
                 else:
-                    for nm, e in named(sel.get("ensures"), "ensures"):
+                    posts = named(sel.get("ensures"), "ensures")
+                    if sel.get("emits") is not None:
+                        posts = posts + [("emits-exactly-these-events-in-this-order", "trace_events() == (%s)" % sel["emits"])]
+                    for nm, e in posts:
                         try:
                             ok = ev(e, env)
                         except Exception as ex:
